@@ -7,6 +7,11 @@ package simrt
 type Tape struct {
 	Program  []uint64 `json:"program"`
 	Schedule []uint64 `json:"schedule"`
+	// ProgramSpans are [start,end) index ranges of Program that were drawn
+	// as one unit (one task, one cycle, one operation, each including the
+	// draw that decided whether it exists). Deleting a whole span keeps the
+	// rest of the tape aligned; the minimiser tries that first.
+	ProgramSpans [][2]int `json:"program_spans,omitempty"`
 }
 
 // Stream is one section of the choice tape. In record mode Draw returns PRNG
@@ -20,6 +25,8 @@ type Stream struct {
 	pos    int
 	out    []uint64
 	n      int
+	spans  [][2]int
+	stack  []int
 }
 
 // NewRecordStream returns a stream that draws from the PRNG.
@@ -86,3 +93,28 @@ func (s *Stream) Out() []uint64 {
 //
 //go:norace
 func (s *Stream) Count() int { return s.n }
+
+// Begin opens a span: the draws until the matching End form one unit.
+// Program stream only (drawn by the main goroutine before tasks start).
+func (s *Stream) Begin() { s.stack = append(s.stack, s.n) }
+
+// End closes the innermost span.
+func (s *Stream) End() {
+	if len(s.stack) == 0 {
+		return
+	}
+	start := s.stack[len(s.stack)-1]
+	s.stack = s.stack[:len(s.stack)-1]
+	if s.n > start {
+		s.spans = append(s.spans, [2]int{start, s.n})
+	}
+}
+
+// Spans returns the closed spans.
+func (s *Stream) Spans() [][2]int { return s.spans }
+
+// More decides whether a repeated unit continues: true with probability
+// 1-1/k; false when replaying zeros, so truncated tapes simply stop.
+//
+//go:norace
+func (s *Stream) More(k int) bool { return s.Draw(k) != 0 }
